@@ -248,7 +248,6 @@ Proof.
     { intros w' Hw. unfold originals, set_insts. cbn [w_insts]. rewrite Hw, (Hupd _ i it); [lia|assumption|reflexivity]. }
     assert (Hs : forall w', w_insts w' = w_insts w -> (originals w' <= originals w)%nat).
     { intros w' Hw. unfold originals. rewrite Hw. lia. }
-    match goal with |- context [match ?d with Some _ => _ | None => _ end] => destruct d end; [apply Hk; reflexivity|].
     destruct (eval_act _ _ _ _ _ _ _ _) as [[s2 ar2] r].
     destruct (recv_of m).
     + destruct act; cbn [fst]; first [apply Hh; reflexivity|apply Hs; reflexivity].
